@@ -4,6 +4,8 @@
 //!   `val <nest> <present> <signer> <writable> <key-hex> <owner-hex>` → `ok` | `err:<Class>`
 //!       nest = layers outer→inner joined by `,`, the last one being the base:
 //!       layers: `opt` `signer` `mut` `nsigner` (MaybeSigner<false>) `nmut` (MaybeMut<false>) `addr:<hex32>`
+//!               `advw` / `advs`: a user single-account set that ADVERTISES writable / signer in its
+//!               meta (like `Init` does) but checks nothing itself (pass-through for validation)
 //!       bases : `info` `sysacct` `program:<hex32>` `sysvar:<hex32>`
 //!   `eq <a-hex32> <b-hex32>` → `1` | `0`   (the framework's fast 32-byte comparison)
 use crate::progs::HxProgram;
@@ -43,6 +45,15 @@ pub struct AddrOptSigner {
     #[validate(address = &ADDR_A)]
     a: Signer<AccountInfo>,
 }
+
+/// Advertises `writable` in its `SingleSetMeta` without checking the flag (as `Init<T>` does).
+#[derive(AccountSet, Debug, Clone, Copy)]
+#[repr(transparent)]
+pub struct AdvW<T>(#[single_account_set(writable)] T);
+/// Advertises `signer` in its `SingleSetMeta` without checking the flag.
+#[derive(AccountSet, Debug, Clone, Copy)]
+#[repr(transparent)]
+pub struct AdvS<T>(#[single_account_set(signer)] T);
 
 type Runner = fn(&[AccountInfo]) -> String;
 
@@ -100,6 +111,12 @@ fn nests() -> Vec<(String, Runner)> {
         n!("nsigner,nmut,info", MaybeSigner<false, MaybeMut<false, AccountInfo>>),
         n!("signer,nmut,mut,sysacct", Signer<MaybeMut<false, Mut<SystemAccount>>>),
         n!("mut,nsigner,signer,info", Mut<MaybeSigner<false, Signer<AccountInfo>>>),
+        n!("mut,advw,info", Mut<AdvW<AccountInfo>>),
+        n!("signer,advs,info", Signer<AdvS<AccountInfo>>),
+        n!("mut,advw,signer,sysacct", Mut<AdvW<Signer<SystemAccount>>>),
+        n!("signer,mut,advs,advw,info", Signer<Mut<AdvS<AdvW<AccountInfo>>>>),
+        n!("advw,mut,info", AdvW<Mut<AccountInfo>>),
+        n!("opt,mut,advw,signer,info", Option<Mut<AdvW<Signer<AccountInfo>>>>),
         n!("opt,info", Option<AccountInfo>),
         n!("opt,signer,info", Option<Signer<AccountInfo>>),
         n!("opt,mut,info", Option<Mut<AccountInfo>>),
@@ -128,6 +145,67 @@ fn expected_key(nest: &str) -> Option<[u8; 32]> {
     None
 }
 
+/// Keys derived from `base` that differ from it in ways a *folded* comparison could cancel:
+/// the same xor mask in several 8-byte words, +m / -m (wrapping) in two words, swapped words,
+/// reversed bytes, all words different, only the top / bottom bit of each word.
+fn adversarial_variants(base: [u8; 32], rng: &mut Rng) -> Vec<[u8; 32]> {
+    let mut out = vec![];
+    let word = |k: &[u8; 32], i: usize| u64::from_le_bytes(k[i * 8..i * 8 + 8].try_into().unwrap());
+    let set = |k: &mut [u8; 32], i: usize, v: u64| k[i * 8..i * 8 + 8].copy_from_slice(&v.to_le_bytes());
+    for subset in 1u8..16 {
+        if subset.count_ones() < 2 {
+            continue;
+        }
+        for mask in [1u64, 0x80, 1 << 63, 0xA5 << 40, rng.next() | 1, u64::MAX] {
+            let mut k = base;
+            for i in 0..4 {
+                if subset & (1 << i) != 0 {
+                    let w = word(&k, i) ^ mask;
+                    set(&mut k, i, w);
+                }
+            }
+            out.push(k);
+        }
+    }
+    for i in 0..4 {
+        for j in 0..4 {
+            if i == j {
+                continue;
+            }
+            for m in [1u64, 0x100, rng.next() | 1] {
+                let mut k = base;
+                let (wi, wj) = (word(&k, i).wrapping_add(m), word(&k, j).wrapping_sub(m));
+                set(&mut k, i, wi);
+                set(&mut k, j, wj);
+                out.push(k);
+            }
+            if i < j {
+                let mut k = base;
+                let (wi, wj) = (word(&base, i), word(&base, j));
+                set(&mut k, i, wj);
+                set(&mut k, j, wi);
+                out.push(k);
+            }
+        }
+    }
+    let mut r = base;
+    r.reverse();
+    out.push(r);
+    let mut all = base;
+    for b in all.iter_mut() {
+        *b = !*b;
+    }
+    out.push(all);
+    for (lo, hi) in [(0usize, 16usize), (16, 32), (8, 24)] {
+        // half / middle equal only
+        let mut k = key_from(rng.next()).to_bytes();
+        k[lo..hi].copy_from_slice(&base[lo..hi]);
+        out.push(k);
+    }
+    out.retain(|k| *k != base);
+    out
+}
+
 // ---------------------------------------------------------------- independent oracle (plain Rust)
 fn oracle_accepts(nest: &str, present: bool, signer: bool, writable: bool, key: &[u8; 32], owner: &[u8; 32]) -> Option<bool> {
     let layers: Vec<&str> = nest.split(',').collect();
@@ -137,7 +215,7 @@ fn oracle_accepts(nest: &str, present: bool, signer: bool, writable: bool, key: 
     let mut ok = true;
     for l in layers {
         ok &= match l {
-            "opt" | "nsigner" | "nmut" | "info" => true,
+            "opt" | "nsigner" | "nmut" | "info" | "advw" | "advs" => true,
             "signer" => signer,
             "mut" => writable,
             "sysacct" => owner == &[0u8; 32],
@@ -221,8 +299,8 @@ fn replay_line(rec: &mut Recorder, table: &[(String, Runner)], l: &str) {
 pub fn run(args: &Args) {
     let table = nests();
     let mut rec = Recorder::new(
-        "one case per nesting (37 modifier nestings up to depth 4, see c09.rs) x flag combinations x key/owner perturbations \
-         (exact, every single-bit flip, every single-byte replacement, random); plus direct fast_32_byte_eq pairs. \
+        "one case per nesting (43 modifier nestings up to depth 5, see c09.rs) x flag combinations x key/owner perturbations \
+         (exact, every single-bit flip, every single-byte replacement, random, and multi-word differences that a folded comparison would cancel: equal xor masks in several words, +m/-m in two words, swapped words, reversed bytes); plus direct fast_32_byte_eq pairs. \
          A case is non-trivial when it contains at least one accepted and one rejected account; distinct by case text hash.",
     );
     if let Some(cases) = args.replay_cases() {
@@ -274,6 +352,13 @@ pub fn run(args: &Args) {
                 exec_val(&mut rec, &table, nest, true, rng.chance(1, 2), rng.chance(1, 2), want_key, owner);
             }
         }
+        // differences a folded / word-wise comparison could cancel
+        for key in adversarial_variants(want_key, &mut rng) {
+            exec_val(&mut rec, &table, nest, true, true, true, key, sys);
+        }
+        for owner in adversarial_variants(sys, &mut rng) {
+            exec_val(&mut rec, &table, nest, true, true, true, want_key, owner);
+        }
         let oks = rec.distribution.get("ans:ok").copied().unwrap_or(0) - before.0;
         let _ = before.1;
         if oks > 0 {
@@ -300,6 +385,12 @@ pub fn run(args: &Args) {
         }
         exec_eq(&mut rec, a, d);
         exec_eq(&mut rec, d, a);
+        if i % 10 == 0 {
+            for v in adversarial_variants(a, &mut rng) {
+                exec_eq(&mut rec, a, v);
+                exec_eq(&mut rec, v, a);
+            }
+        }
     }
     rec.mark_nontrivial();
     rec.samples.push(serde_json_sample(&table));
